@@ -17,7 +17,7 @@ CLAIMS = {
              "satisfaction the choosers return reports locks of the candidate whose stack it carries. End to end on a bounded "
              "family (~60 scripts x every subset of their keys x preimage sets x locks met or not, both modes): the "
              "satisfier, evaluated from its typed syntax tree, returns only witnesses that use owned assets and make the "
-             "specification's script succeed in a reference execution under the reported locks. PsbtInputSatisfier::check_older / check_after are the spent input's own BIP-68 / BIP-65 conditions (grid of sequences, versions, lock times, other inputs final or not; rule shared with C14). The last steps of a direct satisfaction (Satisfaction::try_completing element by element in order, None on the first placeholder that cannot be completed, Miniscript::_satisfy reporting Unavailable / Impossible as CouldNotSatisfy) are a decision table (shared with C17).",
+             "specification's script succeed in a reference execution under the reported locks. PsbtInputSatisfier::check_older / check_after are the spent input's own BIP-68 / BIP-65 conditions (grid of sequences, versions, lock times, other inputs final or not; rule shared with C14). The last steps of a direct satisfaction (Satisfaction::try_completing element by element in order, None on the first placeholder that cannot be completed, Miniscript::_satisfy reporting Unavailable / Impossible as CouldNotSatisfy) are a decision table (shared with C17). Descriptor::satisfy stores the returned witness and scriptSig in the TxIn, each in its own field, and leaves it unchanged on failure.",
         note="Trusted: spec/satisfaction.py, spec/outputs.py; rustc THIR; evaluator semantics (fails closed). Signature "
              "validity, script execution and witness optimisation are not decided.",
         tech=STATIC + "symbolic per-variant template extraction from THIR compared with specification tables",
@@ -56,7 +56,7 @@ CLAIMS = {
              "fused *VERIFY written as two opcodes) that the decoder accepts re-encodes to the very same instruction "
              "stream (the decoder accepts canonical encodings only); the context's key pushes (push_ms_key / push_ms_key_hash / "
              "to_pubkeyhash) push / hash the key in its own serialization (33 / 65 bytes by its compressed flag; x-only in "
-             "tapscript).",
+             "tapscript). The key types' own ToPublicKey conversions (full key = itself, secp key = its compressed key, x-only key = 02 || x, hash conversions = identity).",
         note="Trusted: spec/script.py (opcode bytes, templates); models of bitcoin::script::Builder::push_* (token "
              "constructors), the instruction iterator and read_scriptint; rustc THIR. The decoder is covered on the family, "
              "not on all scripts.",
@@ -100,7 +100,7 @@ CLAIMS = {
              "mixed-time-lock fold truth table. Decides structurally: polarity (tightening never admits more) and "
              "switch<->defect<->error pairing of every validation switch / limit on decision trees extracted symbolically "
              "from validate / validate_non_top_level for each of the 30 fragment kinds; every parameter is enforced; "
-             "per-context fragment and key tables; entry-point coverage and constructor discipline on MIR. Numbers are in range on every way in: lock times exactly 1 <= n < 2^31 and thresholds 1 <= k <= n <= key limit, through the constructors, the text parser and the script decoder (boundary tables by evaluation). Every typed leaf constructor of Miniscript (pk_k ... sortedmulti_a, TRUE / FALSE: what parser, decoder and compiler use) attaches the type and figures that from_ast computes for the same node, in every context (shared rule). script_num_size and Ctx::pk_len, the byte counts the size switches are applied to, are exact tables (shared with C04).",
+             "per-context fragment and key tables; entry-point coverage and constructor discipline on MIR. Numbers are in range on every way in: lock times exactly 1 <= n < 2^31 and thresholds 1 <= k <= n <= key limit, through the constructors, the text parser and the script decoder (boundary tables by evaluation). Every typed leaf constructor of Miniscript (pk_k ... sortedmulti_a, TRUE / FALSE: what parser, decoder and compiler use) attaches the type and figures that from_ast computes for the same node, in every context (shared rule). script_num_size and Ctx::pk_len, the byte counts the size switches are applied to, are exact tables (shared with C04). The key-kind predicates (is_uncompressed / is_x_only_key / num_der_paths) of every MiniscriptKey impl of the crate are a checked table; an impl missing from it fails.",
         note="Trusted: spec/limits.py; rustc THIR/MIR and constant evaluation. Defect predicates are assumed to compute "
              "what their names say; typed infallible combinators are outside the claim.",
         tech=STATIC + "symbolic decision-tree extraction with monotonicity (polarity) check, exact finite tables, MIR must-pass-through and who-may-construct",
@@ -255,7 +255,7 @@ CLAIMS["C14"] = dict(
          "fingerprint, origin path + path) for the key derived along the definite key's own path; Plan::update_psbt_input "
          "records the same BIP-174 scripts per descriptor type; PsbtInputSatisfier finds every signature / key in the "
          "BIP-174 / 371 field assigned to it for exactly the asked key, hash and leaf; update_input_with_descriptor checks the "
-         "descriptor against the really spent output (utxo consistency table). PsbtExt::extract on model PSBTs: fails for a malformed PSBT, an input without final fields and a refusing interpreter_check, otherwise returns the unsigned transaction with every input's own final scriptSig / witness and nothing else changed; interpreter_check runs interpreter_inp_check for every input in order on that input's own final data. update_output_with_descriptor checks the output map at the index against the transaction output at the same index (decision table); the unchecked updaters run the same updater without a scriptPubKey.",
+         "descriptor against the really spent output (utxo consistency table). PsbtExt::extract on model PSBTs: fails for a malformed PSBT, an input without final fields and a refusing interpreter_check, otherwise returns the unsigned transaction with every input's own final scriptSig / witness and nothing else changed; interpreter_check runs interpreter_inp_check for every input in order on that input's own final data. update_output_with_descriptor checks the output map at the index against the transaction output at the same index (decision table); the unchecked updaters run the same updater without a scriptPubKey. psbt::sanity_check accepts exactly PSBTs whose input counts agree and whose partial signatures carry the input's (standard) sighash type.",
     note="Trusted: rust-bitcoin PSBT / lock-time types modelled by fields and consensus encodings; C13 (interpreter) and "
          "C01-C03 (satisfier); rustc THIR/MIR; evaluator. Real signatures / sighashes, extraction, operation-history "
          "independence beyond the per-call state tables, and taproot field population are not decided.",
